@@ -37,6 +37,7 @@ type popCase struct {
 	MaxAge  int    // hours
 	Entries []entry
 	Sibling bool // also a "<name>.wf" appender in the same directory
+	Second  bool // run a second scan of the same appender after more expired files appeared
 }
 
 func (c popCase) String() string {
@@ -48,7 +49,7 @@ func (c popCase) String() string {
 		}
 		p = append(p, fmt.Sprintf("%s%s@%dmin", e.Name, d, e.AgeMin))
 	}
-	return fmt.Sprintf("name=%q maxAge=%dh sibling=%v entries=[%s]", c.Name, c.MaxAge, c.Sibling, strings.Join(p, " "))
+	return fmt.Sprintf("name=%q maxAge=%dh sibling=%v second=%v entries=[%s]", c.Name, c.MaxAge, c.Sibling, c.Second, strings.Join(p, " "))
 }
 
 var digits14 = rapid.OneOf(
@@ -62,6 +63,7 @@ func genCase(t *rapid.T) popCase {
 		Name:    rapid.SampledFrom([]string{"app.log", "svc", "a.b.c", "x-y_z.log", "app.log.wf", "log", "access+1.log"}).Draw(t, "name"),
 		MaxAge:  rapid.SampledFrom([]int{1, 2, 24, 168, 720, 3, 48}).Draw(t, "maxAge"),
 		Sibling: rapid.Bool().Draw(t, "sibling"),
+		Second:  rapid.Bool().Draw(t, "secondScan"),
 	}
 	if rapid.Bool().Draw(t, "anyAge") {
 		c.MaxAge = rapid.IntRange(1, 720).Draw(t, "maxAgeAny")
@@ -200,6 +202,29 @@ func runCase(c popCase, dir string) error {
 	log.VerifClearExpiredFiles(a)
 	if err := check("appender "+c.Name, c.Name); err != nil {
 		return err
+	}
+	// a later scan of the SAME appender: files that expired (or were put there) in the meantime
+	if c.Second {
+		late := []string{c.Name + ".20190101000000", c.Name + ".20180203040506"}
+		old := now.Add(-time.Duration(c.MaxAge*60+90) * time.Minute)
+		for _, n := range late {
+			p := filepath.Join(dir, n)
+			if _, err := os.Stat(p); err == nil {
+				continue
+			}
+			_ = os.WriteFile(p, []byte("late\n"), 0o644)
+			_ = os.Chtimes(p, old, old)
+		}
+		log.VerifClearExpiredFiles(a)
+		after := list(dir)
+		for _, n := range late {
+			if after[n] {
+				return fmt.Errorf("a second cleanup of the same appender kept %q, an own file older than the maximum age of %d h that appeared after the first cleanup", n, c.MaxAge)
+			}
+		}
+		if err := check("appender "+c.Name+" (second scan)", c.Name); err != nil {
+			return err
+		}
 	}
 	if sib != nil {
 		log.VerifClearExpiredFiles(sib)
